@@ -28,6 +28,13 @@ holds a key to it) and `drop_cyclic_order` (explicit form of `detachReferences` 
 `Lemmas/SortDetachDrop.lean`, and `sortChanges_prefix`, `Lemmas/SortPrefix.lean`: the ALTERs that drop the
 keys have no dependency, so `SortChanges` emits all of them before the first DROP TABLE).
 
+The TiDB planner (`Atlas.Tidb`, `Lemmas/Tidb.lean`) re-orders the pre-sorted atomic changes by a stable sort on
+`priority`: `tidb_order_stable` / `tidb_keeps_presort_order` (changes of one priority - create-only and
+drop-only change sets - keep the order of the topological pre-sort, so the theorems above carry over) and
+`tidb_repoint_before_created_parent` (REFUTING: a foreign key re-pointed to a table created by the same change
+set is planned before that table exists, wherever the two stand in the input - the property is false of the
+TiDB planner on such change sets: known finding `tidb-repointed-fk-planned-before-created-parent`).
+
 PARTIAL: for change sets that MIX creations, drops and modifications, that `dependsOn` is acyclic after
 `DetachCycles` (the hypothesis of `sortChanges_topo`) and that the order replays on the reference
 catalogue is checked exhaustively on the enumerated space and on random larger graphs by the
@@ -39,6 +46,7 @@ import Lemmas.SortMap
 import Lemmas.SortDetach
 import Lemmas.SortDetachDrop
 import Lemmas.SortPrefix
+import Lemmas.Tidb
 
 namespace Props.C04
 open Atlas.Sort
@@ -607,5 +615,38 @@ set_option maxRecDepth 8000 in
 example : (planOrder [{ id := 3, kind := .drop, table := "t2" },
                       { id := 2, kind := .drop, table := "t1", fks := [fk 1 2] },
                       { id := 1, kind := .drop, table := "t0", fks := [fk 0 1] }]).map (·.table) = ["t0", "t1", "t2"] := by decide
+
+/-! ### the TiDB planner's ordering step -/
+
+section Tidb
+open Atlas.Tidb
+
+/-- **tidb_order_stable**: the TiDB planner's sort is a permutation sorted by priority in which changes of equal
+priority keep the order the topological pre-sort gave them. -/
+theorem tidb_order_stable (l : List TCh) (k : Nat) :
+    (order l).Perm l ∧ (order l).Pairwise (fun a b => priority a ≤ priority b) ∧
+    (order l).filter (fun c => priority c = k) = l.filter (fun c => priority c = k) :=
+  ⟨order_perm l, order_sorted l, order_stable l k⟩
+
+/-- **tidb_keeps_presort_order**: change sets whose atomic changes have one priority (only CREATE TABLE, only
+DROP TABLE) are planned exactly in the pre-sorted order. -/
+theorem tidb_keeps_presort_order (l : List TCh) (k : Nat) (h : ∀ c ∈ l, priority c = k) : order l = l :=
+  order_of_one_priority l k h
+
+/-- **tidb_repoint_before_created_parent** (refuting witness, general form): whenever a change set holds a
+foreign key re-pointed to table `t` and the creation of `t`, the TiDB planner plans the re-pointing first. -/
+theorem tidb_repoint_before_created_parent (l xs ys : List TCh) (t : Nat) (hm : TCh.modifyFK t ∈ l)
+    (h : order l = xs ++ TCh.addTable t :: ys) : TCh.modifyFK t ∈ xs :=
+  repoint_planned_before_parent l xs ys t hm h
+
+/-- the witness replayed by the correspondence run: in both input orders the ALTER precedes the CREATE. -/
+example : order [TCh.addTable 1, TCh.modifyFK 1] = [TCh.modifyFK 1, TCh.addTable 1] := by
+  simp [order, List.mergeSort, List.MergeSort.Internal.splitInTwo, le, priority]
+example : order [TCh.modifyFK 1, TCh.addTable 1] = [TCh.modifyFK 1, TCh.addTable 1] := by
+  simp [order, List.mergeSort, List.MergeSort.Internal.splitInTwo, le, priority]
+example : order [TCh.addTable 1, TCh.addTable 2, TCh.addTable 0] = [TCh.addTable 1, TCh.addTable 2, TCh.addTable 0] :=
+  tidb_keeps_presort_order _ 4 (by simp [priority])
+
+end Tidb
 
 end Props.C04
